@@ -109,7 +109,9 @@ def parse_file(file_path, parse_options=None):
 def _parse_with_encoding(file_path, parse_options, encoding):
   codec_errors = CodecErrorsReplace()
   codecs.register_error('custom', codec_errors)
-  with codecs.open(file_path, mode="r", encoding=encoding, errors="custom") as f:
+  # Note that newline="" is what the csv module requires; in particular, codecs.open() would split
+  # lines on characters like \u2028 or \x0c, breaking up cells that contain them.
+  with open(file_path, mode="r", encoding=encoding, errors="custom", newline="") as f:
     parsing_options, export_list = _parse_open_file(f, parse_options=parse_options)
     parsing_options["encoding"] = encoding
     if codec_errors.error_count:
